@@ -129,7 +129,13 @@ pub fn gen_install(r: &mut Rng, tier: Tier, max_entries: usize) -> InstallSpec {
         let n_packs = 1 + r.below(3) as usize;
         let mut packs: Vec<PackSpec> = vec![];
         for _ in 0..n_packs {
-            let (cat_name, cat) = *r.pick(&CATEGORIES);
+            // one time in three another chunk of a category the repository already has
+            let (cat_name, cat) = if !packs.is_empty() && r.chance(1, 3) {
+                let c = packs[r.usize_below(packs.len())].cat;
+                *CATEGORIES.iter().find(|(_, id)| *id == c).unwrap()
+            } else {
+                *r.pick(&CATEGORIES)
+            };
             let chunk = if r.chance(1, 2) { 0 } else { r.range(1, 9) as u8 };
             if packs.iter().any(|p| p.cat == cat && p.chunk == chunk) {
                 continue;
